@@ -1,14 +1,34 @@
-// C10 (tracing part) — a catalogue of macro forms through the REAL macros, callsite registration and dispatch:
-// every field / message expression is evaluated exactly once when the callsite is enabled and not at all when it is
-// disabled; the visitor sees the fields once each, in declaration order (message first), under their names.
-// All recording state lives inside the collector (heap): see DESIGN.md section 0a (static aliasing in Kani 0.68).
+// C10 (tracing part) — a catalogue of macro forms through the REAL macros and the real MacroCallsite: every field /
+// message expression is evaluated exactly once when the callsite is enabled and NOT AT ALL when it is disabled by any
+// filtering stage (published max level, cached `never`, dynamic `enabled` = false); the visitor sees the fields once each,
+// in declaration order (message first), under their names, through the method for their type; `%` presents Display,
+// `?` presents Debug.  tracing-core's global state is replaced by its contracts exactly as in C01's
+// macro_guard_inv.kani.rs (get_default = current collector, LevelFilter::current = published level, callsite::register
+// = sets the cached interest); the first version drove the real registry and needed > 24 GB per harness.
 use crate::{collect::Interest, dispatch::Dispatch, field::{Field, Visit}, span, Collect, Event, Level, Metadata};
+use tracing_core::LevelFilter;
 use core::cell::Cell;
 use core::sync::atomic::{AtomicUsize, Ordering as AO};
 use std::sync::Arc;
 
 fn nd<T: kani::Arbitrary>() -> T { kani::any() }
 fn pad_stub<'a>(_f: &mut core::fmt::Formatter<'a>, _s: &str) -> core::fmt::Result where 'a: 'a { Ok(()) }
+fn filter_of(k: u8) -> LevelFilter {
+    match k { 0 => LevelFilter::OFF, 1 => LevelFilter::ERROR, 2 => LevelFilter::WARN, 3 => LevelFilter::INFO, 4 => LevelFilter::DEBUG, _ => LevelFilter::TRACE }
+}
+vstatic!(CUR_DISPATCH: AtomicUsize = AtomicUsize::new(0));
+vstatic!(CUR_MAX: AtomicUsize = AtomicUsize::new(5));
+vstatic!(NEXT_CACHED: AtomicUsize = AtomicUsize::new(2));
+fn get_default_stub<T, F>(mut f: F) -> T where F: FnMut(&Dispatch) -> T {
+    let p = CUR_DISPATCH.load(AO::SeqCst) as *const Dispatch;
+    assert!(!p.is_null(), "C10.setup.a_current_collector_is_installed");
+    f(unsafe { &*p })
+}
+fn current_stub() -> LevelFilter { filter_of(CUR_MAX.load(AO::SeqCst) as u8) }
+fn register_stub(reg: &'static tracing_core::callsite::Registration) {
+    let k = NEXT_CACHED.load(AO::SeqCst);
+    reg.__verif_callsite().set_interest(match k { 0 => Interest::never(), 1 => Interest::sometimes(), _ => Interest::always() });
+}
 
 /// log of what the visitor saw: up to 4 entries of (first byte of the field name, kind, low bits of the value)
 struct St { n: AtomicUsize, name: [AtomicUsize; 4], kind: [AtomicUsize; 4], val: [AtomicUsize; 4], events: AtomicUsize, spans: AtomicUsize }
@@ -16,6 +36,8 @@ fn new_st() -> Arc<St> { Arc::new(St { n: AtomicUsize::new(0), name: [AtomicUsiz
     kind: [AtomicUsize::new(0), AtomicUsize::new(0), AtomicUsize::new(0), AtomicUsize::new(0)], val: [AtomicUsize::new(0), AtomicUsize::new(0), AtomicUsize::new(0), AtomicUsize::new(0)],
     events: AtomicUsize::new(0), spans: AtomicUsize::new(0) }) }
 const K_U64: usize = 1; const K_I64: usize = 2; const K_BOOL: usize = 3; const K_STR: usize = 4; const K_DEBUG: usize = 5;
+struct Sink;
+impl core::fmt::Write for Sink { fn write_str(&mut self, _: &str) -> core::fmt::Result { Ok(()) } }
 struct V<'a>(&'a St);
 impl V<'_> { fn put(&mut self, f: &Field, k: usize, v: usize) { let i = self.0.n.fetch_add(1, AO::SeqCst); if i < 4 { self.0.name[i].store(f.name().as_bytes()[0] as usize, AO::SeqCst); self.0.kind[i].store(k, AO::SeqCst); self.0.val[i].store(v, AO::SeqCst); } } }
 impl Visit for V<'_> {
@@ -23,12 +45,19 @@ impl Visit for V<'_> {
     fn record_i64(&mut self, f: &Field, v: i64) { self.put(f, K_I64, v as usize) }
     fn record_bool(&mut self, f: &Field, v: bool) { self.put(f, K_BOOL, v as usize) }
     fn record_str(&mut self, f: &Field, v: &str) { self.put(f, K_STR, v.len()) }
-    fn record_debug(&mut self, f: &Field, _: &dyn core::fmt::Debug) { self.put(f, K_DEBUG, 0) }
+    // the value is RENDERED through its Debug impl (which is what a `?` / `%` field hands the visitor); Probe below notes
+    // which of its two impls was used
+    fn record_debug(&mut self, f: &Field, v: &dyn core::fmt::Debug) { let _ = core::fmt::write(&mut Sink, format_args!("{:?}", v)); self.put(f, K_DEBUG, 0) }
 }
-struct Rec { accept: bool, s: Arc<St> }
+/// a value whose Display and Debug impls are distinguishable without reading text
+struct Probe<'a> { disp: &'a Cell<u32>, dbg: &'a Cell<u32> }
+impl core::fmt::Display for Probe<'_> { fn fmt(&self, _: &mut core::fmt::Formatter<'_>) -> core::fmt::Result { self.disp.set(self.disp.get() + 1); Ok(()) } }
+impl core::fmt::Debug for Probe<'_> { fn fmt(&self, _: &mut core::fmt::Formatter<'_>) -> core::fmt::Result { self.dbg.set(self.dbg.get() + 1); Ok(()) } }
+
+struct Rec { dynamic: bool, s: Arc<St> }
 impl Collect for Rec {
-    fn register_callsite(&self, _: &'static Metadata<'static>) -> Interest { if self.accept { Interest::always() } else { Interest::never() } }
-    fn enabled(&self, _: &Metadata<'_>) -> bool { self.accept }
+    fn register_callsite(&self, _: &'static Metadata<'static>) -> Interest { Interest::sometimes() }
+    fn enabled(&self, _: &Metadata<'_>) -> bool { self.dynamic }
     fn new_span(&self, a: &span::Attributes<'_>) -> span::Id { self.s.spans.fetch_add(1, AO::SeqCst); a.record(&mut V(&self.s)); span::Id::from_u64(1) }
     fn record(&self, _: &span::Id, _: &span::Record<'_>) {}
     fn record_follows_from(&self, _: &span::Id, _: &span::Id) {}
@@ -39,44 +68,120 @@ impl Collect for Rec {
 }
 fn saw(s: &St, i: usize, name: u8, kind: usize, val: usize) -> bool { s.name[i].load(AO::SeqCst) == name as usize && s.kind[i].load(AO::SeqCst) == kind && s.val[i].load(AO::SeqCst) == val }
 
-// TIER: thorough
+/// installs a collector and ONE of the filtering stages for a callsite of rank `lvl`; returns (dispatch, enabled?)
+///   stage 0: everything lets it through (cached always, or sometimes + dynamic true)
+///   stage 1: the published maximum level is below the callsite's level
+///   stage 2: the cached interest is `never`
+///   stage 3: cached `sometimes` and the collector's dynamic check says no
+fn stage(lvl: u8, s: &Arc<St>) -> (Dispatch, bool) {
+    let st: u8 = nd(); kani::assume(st <= 3);
+    let cached: u8 = nd(); let max: u8 = nd(); kani::assume(max <= 5);
+    kani::assume(match st { 0 => cached == 1 || cached == 2, 2 => cached == 0, 3 => cached == 1, _ => cached <= 2 });
+    kani::assume(if st == 1 { max < lvl } else { max >= lvl });
+    NEXT_CACHED.store(cached as usize, AO::SeqCst); CUR_MAX.store(max as usize, AO::SeqCst);
+    let dynamic = if st == 3 { false } else if st == 0 { true } else { nd() };
+    (Dispatch::__verif_unregistered(Rec { dynamic, s: s.clone() }), st == 0)
+}
+
 #[kani::proof]
 #[kani::unwind(8)]
 #[kani::stub(core::fmt::Formatter::pad, pad_stub)]
+#[kani::stub(tracing_core::dispatch::get_default, get_default_stub)]
+#[kani::stub(tracing_core::metadata::LevelFilter::current, current_stub)]
+#[kani::stub(tracing_core::callsite::register, register_stub)]
 fn c10_event_named_fields_evaluated_once_in_order_iff_enabled() {
-    let accept: bool = nd(); let x: u64 = nd(); let y: bool = nd();
+    let x: u64 = nd(); let y: bool = nd();
     let s = new_st();
-    let d = Dispatch::new(Rec { accept, s: s.clone() });
+    let (d, on) = stage(3, &s);
+    CUR_DISPATCH.store(&d as *const Dispatch as usize, AO::SeqCst);
     let evals = Cell::new(0u32);
-    crate::dispatch::with_default(&d, || {
-        crate::event!(Level::INFO, alpha = { evals.set(evals.get() + 1); x }, beta = { evals.set(evals.get() + 10); y }, gamma = "str");
-    });
-    if accept {
+    crate::event!(Level::INFO, alpha = { evals.set(evals.get() + 1); x }, beta = { evals.set(evals.get() + 10); y }, gamma = "str");
+    kani::cover!(on, "C10.reachable.event_enabled"); kani::cover!(!on, "C10.reachable.event_disabled");
+    if on {
         assert!(evals.get() == 11, "C10.event.each_field_expression_evaluated_exactly_once_when_enabled");
         assert!(s.events.load(AO::SeqCst) == 1 && s.n.load(AO::SeqCst) == 3, "C10.event.each_field_visited_exactly_once");
         assert!(saw(&s, 0, b'a', K_U64, x as usize) && saw(&s, 1, b'b', K_BOOL, y as usize) && saw(&s, 2, b'g', K_STR, 3), "C10.event.declaration_order_names_types_values");
     } else {
-        assert!(evals.get() == 0 && s.events.load(AO::SeqCst) == 0, "C10.event.nothing_evaluated_when_disabled");
+        assert!(evals.get() == 0 && s.events.load(AO::SeqCst) == 0 && s.n.load(AO::SeqCst) == 0, "C10.event.nothing_evaluated_when_disabled_by_any_stage");
     }
 }
-// TIER: thorough
+
 #[kani::proof]
 #[kani::unwind(8)]
 #[kani::stub(core::fmt::Formatter::pad, pad_stub)]
+#[kani::stub(tracing_core::dispatch::get_default, get_default_stub)]
+#[kani::stub(tracing_core::metadata::LevelFilter::current, current_stub)]
+#[kani::stub(tracing_core::callsite::register, register_stub)]
 fn c10_span_shorthand_and_sigils_evaluated_once_iff_enabled() {
-    let accept: bool = nd(); let count: i64 = nd(); let flag: bool = nd();
+    let count: i64 = nd(); let flag: bool = nd();
     let s = new_st();
-    let d = Dispatch::new(Rec { accept, s: s.clone() });
+    let (d, on) = stage(4, &s);
+    CUR_DISPATCH.store(&d as *const Dispatch as usize, AO::SeqCst);
     let evals = Cell::new(0u32);
-    crate::dispatch::with_default(&d, || {
-        let sp = crate::span!(Level::DEBUG, "work", count, dbg = ?{ evals.set(evals.get() + 1); flag }, unset = crate::field::Empty);
-        core::mem::forget(sp);
-    });
-    if accept {
+    let sp = crate::span!(Level::DEBUG, "work", count, dbg = ?{ evals.set(evals.get() + 1); flag }, unset = crate::field::Empty);
+    core::mem::forget(sp);
+    kani::cover!(on, "C10.reachable.span_enabled"); kani::cover!(!on, "C10.reachable.span_disabled");
+    if on {
         assert!(evals.get() == 1 && s.spans.load(AO::SeqCst) == 1, "C10.span.expressions_evaluated_once_when_enabled");
         assert!(s.n.load(AO::SeqCst) == 2, "C10.span.empty_field_not_visited_others_once");
         assert!(saw(&s, 0, b'c', K_I64, count as usize) && saw(&s, 1, b'd', K_DEBUG, 0), "C10.span.shorthand_then_debug_sigil_in_order");
     } else {
-        assert!(evals.get() == 0 && s.spans.load(AO::SeqCst) == 0, "C10.span.nothing_evaluated_when_disabled");
+        assert!(evals.get() == 0 && s.spans.load(AO::SeqCst) == 0 && s.n.load(AO::SeqCst) == 0, "C10.span.nothing_evaluated_when_disabled_by_any_stage");
+    }
+}
+
+// `%` hands the visitor the value's Display rendering and `?` its Debug rendering - in EVERY position and for identifier,
+// dotted and string-literal field names (each name form is a separate arm of valueset!)
+#[kani::proof]
+#[kani::unwind(8)]
+#[kani::stub(core::fmt::Formatter::pad, pad_stub)]
+#[kani::stub(tracing_core::dispatch::get_default, get_default_stub)]
+#[kani::stub(tracing_core::metadata::LevelFilter::current, current_stub)]
+#[kani::stub(tracing_core::callsite::register, register_stub)]
+fn c10_display_and_debug_sigils_present_the_matching_rendering() {
+    let s = new_st();
+    NEXT_CACHED.store(2, AO::SeqCst); CUR_MAX.store(5, AO::SeqCst);
+    let d = Dispatch::__verif_unregistered(Rec { dynamic: true, s: s.clone() });
+    CUR_DISPATCH.store(&d as *const Dispatch as usize, AO::SeqCst);
+    let (d1, g1, d2, g2, d3, g3, d4, g4) = (Cell::new(0), Cell::new(0), Cell::new(0), Cell::new(0), Cell::new(0), Cell::new(0), Cell::new(0), Cell::new(0));
+    let form: u8 = nd(); kani::assume(form < 4);
+    match form {
+        // identifier names: % first, ? last
+        0 => crate::event!(Level::INFO, a = %Probe { disp: &d1, dbg: &g1 }, b = ?Probe { disp: &d2, dbg: &g2 }),
+        // string-literal names: ? first, % LAST
+        1 => crate::event!(Level::INFO, "a.x" = ?Probe { disp: &d2, dbg: &g2 }, "b.y" = %Probe { disp: &d1, dbg: &g1 }),
+        // dotted names: % last
+        2 => crate::event!(Level::INFO, a.x = ?Probe { disp: &d2, dbg: &g2 }, b.y = %Probe { disp: &d1, dbg: &g1 }),
+        // string-literal name with % in the middle, span form
+        _ => { let sp = crate::span!(Level::INFO, "s", "a.x" = %Probe { disp: &d1, dbg: &g1 }, b = ?Probe { disp: &d2, dbg: &g2 }); core::mem::forget(sp); }
+    }
+    let _ = (&d3, &g3, &d4, &g4);
+    kani::cover!(form == 1, "C10.reachable.literal_name_percent_last"); kani::cover!(form == 3, "C10.reachable.span_form");
+    assert!(s.n.load(AO::SeqCst) == 2, "C10.sigil.both_fields_visited_once");
+    assert!(d1.get() == 1 && g1.get() == 0, "C10.sigil.percent_presents_Display_exactly_once_and_never_Debug");
+    assert!(g2.get() == 1 && d2.get() == 0, "C10.sigil.question_mark_presents_Debug_exactly_once_and_never_Display");
+}
+
+// a format-string message is presented FIRST, whatever precedes it in the macro call; its arguments are evaluated once
+#[kani::proof]
+#[kani::unwind(8)]
+#[kani::stub(core::fmt::Formatter::pad, pad_stub)]
+#[kani::stub(tracing_core::dispatch::get_default, get_default_stub)]
+#[kani::stub(tracing_core::metadata::LevelFilter::current, current_stub)]
+#[kani::stub(tracing_core::callsite::register, register_stub)]
+fn c10_message_first_and_its_arguments_evaluated_once_iff_enabled() {
+    let x: u64 = nd();
+    let s = new_st();
+    let (d, on) = stage(2, &s);
+    CUR_DISPATCH.store(&d as *const Dispatch as usize, AO::SeqCst);
+    let evals = Cell::new(0u32);
+    crate::event!(Level::WARN, zeta = { evals.set(evals.get() + 1); x }, "hello {}", { evals.set(evals.get() + 10); 7u8 });
+    kani::cover!(on, "C10.reachable.message_enabled"); kani::cover!(!on, "C10.reachable.message_disabled");
+    if on {
+        assert!(evals.get() == 11, "C10.message.field_and_format_argument_evaluated_exactly_once");
+        assert!(s.n.load(AO::SeqCst) == 2 && s.name[0].load(AO::SeqCst) == b'm' as usize && s.kind[0].load(AO::SeqCst) == K_DEBUG, "C10.message.presented_first_as_message");
+        assert!(saw(&s, 1, b'z', K_U64, x as usize), "C10.message.then_the_declared_field");
+    } else {
+        assert!(evals.get() == 0 && s.n.load(AO::SeqCst) == 0 && s.events.load(AO::SeqCst) == 0, "C10.message.nothing_evaluated_when_disabled_by_any_stage");
     }
 }
